@@ -36,7 +36,7 @@ AlphaSet ==
     [] Alpha = "octal" -> {cBS, cDQ, 49, 51, 55, 56}                 \* \ " 1 3 7 8
     [] Alpha = "octal6" -> {cBS, cDQ, 49, 51, 56}                    \* \ " 1 3 8 : digit runs of four and more, closed
     [] Alpha = "slash" -> {cSLASH, cHASH, cSTAR, 113, cSP, cNL, cDQ, cEQ}
-    [] Alpha = "envbody" -> {86, 85, 69, 113, cCOLON, cMINUS, cDOLLAR}      \* V U E q : - $
+    [] Alpha = "envbody" -> {86, 85, 69, 113, cCOLON, cMINUS, cDOLLAR, cNL}  \* V U E q : - $ and a line end (a reference may span lines)
     [] Alpha = "dqlines" -> {cBS, cDQ, cNL, cSP, 113, cHASH}
     [] Alpha = "dqesc" -> {cBS, cDQ, 49, 51, 55, 56, 120, 97, 102, 113}
     [] Alpha = "sq"  -> {cBS, cSQ, cDQ, cNL, cDOLLAR, cLB, cRB, 86, 113, 49}
